@@ -97,6 +97,11 @@ func main() {
 			"of these mutations (outcome compared with the model, no demand); random VALID configurations of every root (random plugin per position, " +
 			"random optional fields, nested) with one unknown / misspelled key at every struct position and a mistyped value / unresolvable placeholder / null " +
 			"at every scalar of each; cli.readConfig in a child process for discard_overflow and unknown keys; " +
+			"per constraint the values next to its bounds (exp=meets: the Spec derives accept / reject from tags + value): endpoint = 18 host forms x 19 port forms " +
+			"(host-less ':port', signs, leading zeros, words, blanks, brackets, IPv6) + malformed host:port texts, url-path, min-time / max-time / min one step below, at and above " +
+			"the bound as text and as number, min-size / max-size on a data-size field, clearly valid / invalid texts of the url / ip / size / log-level text types; " +
+			"an infinity / NaN for an integer option; base-0 integer literals (0x, 0o, 0b, octal, underscores) and float exponents through placeholders; property values with " +
+			"blanks; resolved values that contain placeholder text; " +
 			"a case is non-trivial when it carries a mutation (everything but kind=base / rbase)",
 	})
 }
